@@ -81,7 +81,7 @@ def build_graph(inst):
         G.graph["id"] = inst["gid"]
     nw = inst.get("nw")
     for i, v in enumerate(inst["nodes"]):
-        if nw is not None and nw[i] != NONE:
+        if nw and nw[i] != NONE:
             G.add_node(v, flow=val_of(nw[i], num, den, as_float))
         else:
             G.add_node(v)
@@ -91,7 +91,7 @@ def build_graph(inst):
     el = inst.get("elen")
     for i, (u, v) in enumerate(inst["edges"]):
         attrs = {}
-        if ew is not None and ew[i] != NONE:
+        if ew and ew[i] != NONE:
             attrs["flow"] = val_of(ew[i], num, den, as_float)
         if el and el[i] != NONE:
             attrs["length"] = el[i]
@@ -126,7 +126,7 @@ def build_kwargs(inst, G):
     if "cov" in inst:
         n, d = inst["cov"]
         kw["subset_constraints_coverage" if cyc else "subpath_constraints_coverage"] = (n / d) if d != 1 else float(n)
-    if "covlen" in inst:
+    if "covlen" in inst and inst["covlen"][0] > 0:
         n, d = inst["covlen"]
         kw["subpath_constraints_coverage_length"] = n / d
         kw["length_attr"] = "length"
